@@ -123,7 +123,7 @@ func c16Gen(tier string, emit func(c16Case)) {
 	}
 	for mask := 0; mask < 128; mask++ {
 		for _, uses := range []bool{false, true} {
-			for bi, base := range []string{"/", "/api/", "", "/{t}/", "/{t:[a-z]{4}}/", "/v1.2/"} {
+			for bi, base := range []string{"/", "/api/", "", "/{t}/", "/{t:[a-z]{4}}/", "/v1.2/", "/{all}/"} {
 				for _, grp := range []bool{false, true} {
 					if tier == "quick" && (mask+bi+b2i(grp)+b2i(uses))%2 == 1 {
 						continue
@@ -645,8 +645,19 @@ func c16CheckTable(r *rux.Router, c c16Case, desc string, impl []string, resPath
 func c16CheckRouter(r *rux.Router, rec *c16Rec, c c16Case, desc string, impl []string, resPath, resName string, tb *refmodel.Table, defAction []string, st *fw.Stats, add func(sig, msg string)) {
 	// (2) every method x probe path answers as the table says, and nothing else is reachable
 	// (a variable in the base path is given the value "acme")
-	cp := strings.ReplaceAll(strings.ReplaceAll(resPath, "{t:[a-z]{4}}", "acme"), "{t}", "acme")
+	subst := func(v string) string {
+		return strings.ReplaceAll(strings.ReplaceAll(strings.ReplaceAll(resPath, "{t:[a-z]{4}}", v), "{t}", v), "{all}", v)
+	}
+	cp := subst("acme")
 	probes := []string{cp, cp + "/create", cp + "/7", cp + "/7/edit", cp + "/create/edit", cp + "/7/x", "/", cp + "x"}
+	if cp != resPath {
+		// other values of the base path's variable: one only the plain variable admits, one of two segments (only the
+		// global variable {all} spans a slash)
+		for _, v := range []string{"english", "acme/team1"} {
+			c2 := subst(v)
+			probes = append(probes, c2, c2+"/create", c2+"/7", c2+"/7/edit")
+		}
+	}
 	if c.Cache > 0 {
 		// ids long enough for the cache keys to pass 255 bytes: show and edit of one id stay different requests
 		long := strings.Repeat("k", 250)
@@ -717,11 +728,11 @@ var c16Spec = fw.Spec[c16Case]{
 	Workers: 1,
 	// the only nondeterminism is Go's map iteration order inside Resource (code under test): a confirmation replay may be retried
 	ReplayAttempts: 40,
-	Rule: "complete enumeration: all 128 subsets of the seven actions as controller method sets (generated types) x with/without Uses() (two distinct middleware, closures of one function literal, for every action, implemented or not) x base in {/, /api/, \"\", /{t}/, /{t:[a-z]{4}}/ (a variable in the base path, plain and with a regex), /v1.2/ (a dot in the base path)}; four resources at once next to a more specific dynamic route of the same first segment; three routers built from ONE slice of option values (each of the 3 caching options, capacities 1, 2, 16), two of them registering the same resource type with their own controller instance and requested alternately; a resource registered after its paths were already served by generic routes (route cache off / 2 / 64) and after a middleware-less group whose body called Use x outside a group / inside Group(/g) / inside Group(/) (group middleware passed with spare capacity) (+ outside a group on a router with a route cache of capacity 1 or 2, all probes issued twice in two orders) (+ outside a group on a HandleFallbackRoute router with a catch-all route for all nine methods) (+ outside a group on a router with a custom NotFound handler and no global middleware, all probes issued twice in two orders); the same controller (whose Uses() table is one shared map) registered twice; the registration order inside Resource is DRIVEN through the insertion order of the exported rux.RESTFulActions map and OBSERVED from rux's own debug print; registration is repeated until every permutation of the implemented actions (k<=4, thorough k<=6 on the plain base; all rotations of two base orders beyond) has been observed, or until >12 differently driven registrations all showed one and the same order of >=2 actions (the order then does not come from the map: counter registration_order_independent_of_map_order); " +
+	Rule: "complete enumeration: all 128 subsets of the seven actions as controller method sets (generated types) x with/without Uses() (two distinct middleware, closures of one function literal, for every action, implemented or not) x base in {/, /api/, \"\", /{t}/, /{t:[a-z]{4}}/ (a variable in the base path, plain and with a regex), /v1.2/ (a dot in the base path), /{all}/ (a global variable that spans slashes)}, the variable of the base path probed with three values (acme, english, acme/team1); four resources at once next to a more specific dynamic route of the same first segment; three routers built from ONE slice of option values (each of the 3 caching options, capacities 1, 2, 16), two of them registering the same resource type with their own controller instance and requested alternately; a resource registered after its paths were already served by generic routes (route cache off / 2 / 64) and after a middleware-less group whose body called Use x outside a group / inside Group(/g) / inside Group(/) (group middleware passed with spare capacity) (+ outside a group on a router with a route cache of capacity 1 or 2, all probes issued twice in two orders) (+ outside a group on a HandleFallbackRoute router with a catch-all route for all nine methods) (+ outside a group on a router with a custom NotFound handler and no global middleware, all probes issued twice in two orders); the same controller (whose Uses() table is one shared map) registered twice; the registration order inside Resource is DRIVEN through the insertion order of the exported rux.RESTFulActions map and OBSERVED from rux's own debug print; registration is repeated until every permutation of the implemented actions (k<=4, thorough k<=6 on the plain base; all rotations of two base orders beyond) has been observed, or until >12 differently driven registrations all showed one and the same order of >=2 actions (the order then does not come from the map: counter registration_order_independent_of_map_order); " +
 		"per observed order: Routes()/NamedRoutes() equal the documented table exactly, all 9 methods x 8 probe paths dispatch as the reference resolver says over that table (create never served by show, nothing else reachable), per-action middleware runs only for its action; non-pointer / non-struct / wrong-shaped controllers; non-trivial = a distinct (subset, order) registration",
 	Assume: []string{"runs single-threaded: RESTFulActions, the debug switch and the colour output are process-global", "Go's small-map iteration starts at a random offset of the insertion order; an order not seen within 400 draws is reported as a cap, never as a violation"},
 	Bounds: func(tier string) map[string]any {
-		return map[string]any{"subsets": 128, "uses": 2, "bases": 6, "group": 2, "quick_takes_every_second_combination": tier == "quick"}
+		return map[string]any{"subsets": 128, "uses": 2, "bases": 7, "group": 2, "quick_takes_every_second_combination": tier == "quick"}
 	},
 	Gen:   c16Gen,
 	Run:   c16Run,
